@@ -8,6 +8,7 @@ OutOfReach: the function is then not claimed as verified.
 """
 from __future__ import annotations
 import ast
+import os
 import re
 import copy
 from dataclasses import dataclass, field
@@ -175,6 +176,18 @@ class Engine:
         seen = 0
         # staleness: loop invariants written for a function with a given number of loops say nothing about a body whose loops
         # were merged, split or removed - the contract is out of date (undecided), whatever the obligations would come out as
+        # staleness: a clause guarded by defined('x') for a local x the body no longer assigns holds vacuously - out of date
+        if getattr(self.x, "node", None) is not None:
+            texts_ = list(self.c.ensures) + list(self.c.ensures_on_raise)
+            for sp_ in self.c.loops.values():
+                for k_ in ("inv", "iter_post"):
+                    texts_ += list(sp_.get(k_, []))
+            guards_ = set(re.findall(r"defined\('([A-Za-z][A-Za-z_0-9]*)'\)", " ".join(texts_)))
+            if guards_:
+                stored_ = {n_.id for n_ in ast.walk(self.x.node) if isinstance(n_, ast.Name) and isinstance(n_.ctx, ast.Store)}
+                stored_ |= {a_.arg for n_ in ast.walk(self.x.node) if isinstance(n_, ast.arguments) for a_ in n_.args + n_.kwonlyargs}
+                for g_ in sorted(guards_ - stored_):
+                    raise StaleContract(f"{self.c.key}: clauses are guarded by the local {g_!r}, which the code no longer assigns")
         want_ = getattr(self.c, "static_loops", None)
         if want_ is not None and getattr(self.x, "node", None) is not None:
             have_ = sum(1 for n_ in ast.walk(self.x.node) if isinstance(n_, (ast.For, ast.While, ast.AsyncFor)))
@@ -254,12 +267,24 @@ class Engine:
 
     def _feasible_uncached(self) -> bool:
         s = z3.Solver()
-        s.set("timeout", 300)
+        # (a wall-clock budget: on a loaded machine an easy refutation can miss it and an infeasible path is explored - harmless
+        # for obligations, whose hypotheses are then inconsistent; a construct out of reach on such a path is re-examined, see _run_one)
+        s.set("timeout", int(os.environ.get("PYVC_FEAS_MS", "300")))      # (the variable exists to test that verdicts do not depend on it)
         for a in self.reg.axioms_for(self.c):
             s.add(a)
         for h in self.st.pc:
             s.add(h)
-        return s.check() != z3.unsat
+        r = s.check()
+        if os.environ.get("PYVC_FEAS_STATS"):
+            try:
+                rc = [v for k, v in s.statistics() if k == "rlimit count"]
+                with open(os.environ["PYVC_FEAS_STATS"], "a") as fh:
+                    prev_ = globals().get("_RC_PREV", 0)
+                    globals()["_RC_PREV"] = rc[0] if rc else prev_
+                    fh.write(f"{r} {(rc[0] - prev_) if rc else -1}\n")
+            except Exception:  # noqa
+                pass
+        return r != z3.unsat
 
     # ------------------------------------------------------------------ one path
     def _run_one(self):
@@ -322,6 +347,17 @@ class Engine:
             pass
         except (_Break, _Continue):
             raise OutOfReach(f"{c.key}: break/continue outside loop")
+        except OutOfReach:
+            # met on a path the quick feasibility check (300 ms wall-clock) let through: decide feasibility again with a budget
+            # that does not depend on machine load before giving the function up - an infeasible path needs no model
+            s_ = z3.Solver()
+            s_.set("timeout", 30000)
+            for a_ in self.reg.axioms_for(self.c):
+                s_.add(a_)
+            for h_ in self.st.pc:
+                s_.add(h_)
+            if s_.check() != z3.unsat:
+                raise
 
     def at_normal_exit(self, ret: V):
         c = self.c
@@ -2403,6 +2439,8 @@ class Engine:
                 for i_, nm_ in enumerate(names):
                     if nm_ in rec:
                         envl[nm_] = rec[nm_]
+                    elif nm_.rstrip("_") in rec:
+                        envl[nm_] = rec[nm_.rstrip("_")]     # 'result_' etc.: the same key, renamed so that nested lambdas can tell them apart
                     elif i_ < len(vals):
                         envl[nm_] = vals[i_]
                 self.clause_env_stack.append(envl)
